@@ -1922,7 +1922,17 @@ fn run(cfgv: &Value, ctx: &mut RunCtx) -> Step<()> {
         }
         let fs = ctx.mila("LayeredFilesystem::new", || LayeredFilesystem::new(dirs, hc.lang.mila(), hc.game.mila()))?;
         match fs {
-            Ok(fs) => handles.push(Handle { fs, cfg: hc.clone() }),
+            Ok(fs) => {
+                // a third of the handles are clones of the constructed one (the original is dropped):
+                // a clone must be the same filesystem
+                let fs = if crate::rng::mix_str(ctx.run_seed, "clone") % 3 == (handles.len() as u64) % 3 {
+                    ctx.probe("handle_is_a_clone");
+                    ctx.mila("LayeredFilesystem::clone", || fs.clone())?
+                } else {
+                    fs
+                };
+                handles.push(Handle { fs, cfg: hc.clone() })
+            }
             Err(e) => return ctx.violation_for("C12", "constructor", "new|rejected_valid_stack".to_string(), format!("LayeredFilesystem::new failed on existing directories: {}", e)),
         }
     }
